@@ -68,14 +68,14 @@ Definition tab_entries (w : nat) (g : list Z) (ao : Z) : list Z :=
 
 Lemma read_full_ok g p n : 0 <= n -> 0 <= p -> p + n <= zlen g -> mp4_read_full g p n = Ok (mp4_rd g p n).
 Proof.
-  intros Hn Hp Hf. unfold mp4_read_full. destruct (n <? 0) eqn:E; [lia|]. rewrite zlen_rd_in by lia.
-  rewrite Z.ltb_irrefl. reflexivity.
+  intros Hn Hp Hf. unfold mp4_read_full. destruct (n <? 0) eqn:E; [lia|].
+  destruct (zlen g - p <? n) eqn:E2; [lia|]. reflexivity.
 Qed.
 Lemma read_full_inv g p n d : 0 <= p -> mp4_read_full g p n = Ok d -> 0 <= n /\ d = mp4_rd g p n /\ (0 < n -> p + n <= zlen g) /\ zlen d = n.
 Proof.
   intros Hp. unfold mp4_read_full. destruct (n <? 0) eqn:E; [discriminate|].
-  destruct (zlen (mp4_rd g p n) <? n) eqn:E2; [discriminate|]. intros H; inversion H; subst.
-  rewrite zlen_rd in * by lia. repeat split; lia.
+  destruct (zlen g - p <? n) eqn:E2; [discriminate|]. intros H; inversion H; subst.
+  rewrite zlen_rd by lia. repeat split; lia.
 Qed.
 
 Lemma update_table_frame w delta offset g a g' :
@@ -177,8 +177,8 @@ Proof.
   change (Z.odd (be_decode (mp4_rd g (ao + 9) 3))) with (tfhd_flag g ao).
   destruct (tfhd_flag g ao) eqn:Ef.
   - specialize (Hflag eq_refl). rewrite zlen_rd_in by lia. destruct (ma_len a - 9 <? 15) eqn:E15; [lia|].
-    unfold zslice. replace (15 - 7) with 8 by lia.
-    change (ztake 8 (zdrop 7 (mp4_rd g (ao + 9) (ma_len a - 9)))) with (mp4_rd (mp4_rd g (ao + 9) (ma_len a - 9)) 7 8).
+    replace (zslice 7 15 (mp4_rd g (ao + 9) (ma_len a - 9))) with (mp4_rd (mp4_rd g (ao + 9) (ma_len a - 9)) 7 8)
+      by (rewrite (rd_is_slice (mp4_rd g (ao + 9) (ma_len a - 9))) by lia; reflexivity).
     rewrite rd_sub by lia. replace (ao + 9 + 7) with (ao + 16) by lia.
     change (be_decode (mp4_rd g (ao + 16) 8)) with (tfhd_base g ao).
     set (o' := if tfhd_base g ao >? offset then tfhd_base g ao + delta else tfhd_base g ao).
